@@ -197,6 +197,18 @@ def pcase(entry, rnt, n, content, info, failk=0):
     info = dict(info); info.update({'entry': entry, 'rnt': rnt, 'n': n, 'content': content})
     return Case(line, info)
 
+def parse_corpus(ctx, pid, extra_info=None):
+    """corpus lines `parse <entry> <rnt> <n> <hex> [failk]` with their info rebuilt, so the verdict oracles apply to them"""
+    out = []
+    for c in load_corpus(ctx['verif'], pid):
+        t = c.line.split()
+        if len(t) >= 5 and t[0] == 'parse':
+            info = dict(c.info); info.update(extra_info or {})
+            info.update({'entry': t[1], 'rnt': int(t[2]), 'n': int(t[3]), 'content': unhx(t[4])})
+            out.append(Case(c.line, info))
+        else: out.append(c)
+    return out
+
 def variants(text, rng, info, all_entries=False):
     """the same text through the entry points: exact-length / +NUL, both rnt values"""
     out = []
